@@ -70,8 +70,9 @@ Ratio(s, d, a) ==
 
 InWindow(d, a) == (DayNo[a] - DayNo[d]) \in 1..30
 
-\* cost adjustment attached to acquisition day a by all events
-Adj(s, a) == SumRange([e \in Days |-> dist[s][e][a]], 1, N)
+\* cost adjustment attached to acquisition day a by all events (under apportionment dd)
+AdjOf(dd, s, a) == SumRange([e \in Days |-> dd[s][e][a]], 1, N)
+Adj(s, a) == AdjOf(dist, s, a)
 DayCost(s, a) == Add(BuyCostBase(s, a), Adj(s, a))
 UnitCost(s, a) == Div(DayCost(s, a), C(s, a).bq)
 
@@ -95,16 +96,36 @@ Covered == \A s \in Secs, d \in Days : CoveredAt(s, d)
 -----------------------------------------------------------------------------
 (* Validity of the cost pre-pass result (C03, C11) *)
 
-DistSum(s, e) == SumRange(dist[s][e], 1, N)
-ValidDistFor(s, e) ==
-  /\ \A a \in Days : (a > e \/ IsZero(C(s, a).bq)) => IsZero(dist[s][e][a])      \* never later acquisitions
-  /\ \/ /\ IsPos(HeldStart(s, e))                                                 \* shares held: takes effect in full
-        /\ DistSum(s, e) = EventNet(s, e)
-     \/ /\ ~IsPos(HeldStart(s, e))                                                \* nothing held before the day:
-        /\ \/ \A a \in Days : IsZero(dist[s][e][a])                                \*   ignored, or (if bought that day)
-           \/ IsPos(C(s, e).bq) /\ DistSum(s, e) = EventNet(s, e)                 \*   attached to that day's purchase
-ValidDist == \A s \in Secs, e \in Days :
-  IF HasEvent(s, e) THEN ValidDistFor(s, e) ELSE \A a \in Days : IsZero(dist[s][e][a])
+\* (parameterised by the apportionment dd so that a candidate can be tested before it is adopted)
+ValidDistForOf(dd, s, e) ==
+  LET sum == SumRange(dd[s][e], 1, N) IN
+  /\ \A a \in Days : (a > e \/ IsZero(C(s, a).bq)) => IsZero(dd[s][e][a])     \* never later acquisitions
+  /\ \/ /\ IsPos(HeldStart(s, e))                                              \* shares held: takes effect in full
+        /\ sum = EventNet(s, e)
+     \/ /\ ~IsPos(HeldStart(s, e))                                             \* nothing held before the day:
+        /\ \/ \A a \in Days : IsZero(dd[s][e][a])                              \*   ignored, or (if bought that day)
+           \/ IsPos(C(s, e).bq) /\ sum = EventNet(s, e)                       \*   attached to that day's purchase
+ValidDistOf(dd) == \A s \in Secs, e \in Days :
+  IF HasEvent(s, e) THEN ValidDistForOf(dd, s, e) ELSE \A a \in Days : IsZero(dd[s][e][a])
+ValidDist == ValidDistOf(dist)
+
+\* C11: no acquisition day is left with negative allowable expenditure (then no leg and no
+\* holding can have negative cost, because both are non-negative shares of day costs)
+NonNegDistOf(dd) == \A s \in Secs, a \in Days :
+  IsPos(C(s, a).bq) => ~IsNeg(Add(BuyCostBase(s, a), AdjOf(dd, s, a)))
+NonNegDist == NonNegDistOf(dist)
+
+\* C11: a net capital return larger than everything ever spent on the security up to that
+\* day cannot be absorbed by any apportionment: the run must be refused (TCGA92 s122).
+\* (The statement is one-directional; a smaller return may be accepted or refused.)
+SpentUpTo(s, e) ==
+  SumRange([a \in Days |-> IF a <= e /\ IsPos(C(s, a).bq) THEN BuyCostBase(s, a) ELSE Zero], 1, N)
+NetEventsUpTo(s, e) ==
+  SumRange([x \in Days |-> IF x <= e /\ IsPos(HeldStart(s, x)) THEN EventNet(s, x) ELSE Zero], 1, N)
+MustRefuseAt(s, e) ==
+  /\ HasEvent(s, e) /\ IsPos(HeldStart(s, e))
+  /\ IsNeg(Add(SpentUpTo(s, e), NetEventsUpTo(s, e)))
+MustRefuse == \E s \in Secs, e \in Days : MustRefuseAt(s, e)
 
 -----------------------------------------------------------------------------
 (* Slot sequencing *)
@@ -233,7 +254,7 @@ ApplySplit ==
 
 Next == CheckHolding \/ SameDayLeg \/ BnbLeg \/ S104Leg \/ PoolRemainder \/ ApplySplit
 
-Terminated == pc \in {"done", "failed"}
+Terminated == pc \in {"done", "failed", "refused"}
 
 -----------------------------------------------------------------------------
 (* Properties.  All are state invariants of the design; the conformance     *)
@@ -292,6 +313,11 @@ WindowEdge ==
 \* a Section 104 leg only when every in-window acquisition is exhausted or reserved
 PoolOnlyWhenWindowExhausted ==
   pc = "s104" => BnbCands(cur, day) = {}
+
+\* C11: no leg and no holding is ever reported with negative allowable cost
+NoNegativeCost ==
+  /\ \A i \in 1..Len(legs) : ~IsNeg(legs[i].cost)
+  /\ \A s \in Secs : ~IsNeg(pool[s].c)
 
 \* C03: every pound of expenditure is in exactly one place
 CostConservedAtEnd ==
